@@ -4,31 +4,62 @@ import Sentinel.Model.Throttle
 Driver for C10.
 
 Ops
-* `load <f:bits threshold> <statIntervalMs> <maxQueueingTimeMs>` — a fresh throttling rule / checker (once per case)
+* `load (<f:bits threshold> <statIntervalMs> <maxQueueingTimeMs>)* [other=<n>]` — the complete list of throttling rules of the
+  resource, in check order; also in the middle of a case (a reload: `Throttle.reload` with the code's rule equality).
+  `other=<n>` (a rule for another resource, so that an otherwise identical list is a real reload) is ignored here.
 * `clock <ns>`                                   — virtual time
-* `req <batch>`            `=> pass | wait <ns> | block`   (a `wait` also lets the clock advance: the slot sleeps)
-* `thread <tid> <clock-ns> req <batch>`          — declares worker `tid` (0,1,2,… in order) of the next `sched`
+* `req <batch>`   `=> (L | S<ns>)* (pass|block)` — one request through all rules (`Throttle.chain`): `L` per checker that reached
+  its timestamp (`th.load` hook), `S<ns>` per sleep, then the verdict; the clock advances by the sleeps
+* `thread <tid> <clock-ns> req <batch>`          — declares worker `tid` (0,1,2,… in order) of the next `sched` (exactly one rule in force)
 * `sched <tid|tick:<ns>> …` `=> [0:pass,1:wait:<ns>,2:block]` — runs the declared workers under the schedule
   (`go/internal/sched` semantics: skip finished, drain round-robin); a `clock` op must follow before the next `req`.
 
 Modes: `model` (the definitions of `Sentinel.Model.Throttle`; the float expression `⌈b/T·I⌉` instantiated with
 Lean `Float`), `oracle` (judges the implementation's trace: pass times are taken from the *trace*, the
 interval is the **exact** `⌈b·I/T⌉` of the property's wording; the model is only run to evaluate the known-finding
-classifiers `Cfg.rb` / `Cfg.stale` on the schedule).
+classifiers `Cfg.rb` / `Cfg.stale` on the schedule).  With several rules every rule in force is judged on its own: arrival at the rule
+= arrival + earlier sleeps, pass time = that + its own wait, reconstructed from the events and the rules' classes; limits, thresholds
+and intervals are those of the rule list *in force* (the last `load`), not those of whatever controller the code kept.  A rule that
+stays identical across a reload keeps its record; any other rule starts anew (no spacing claim against earlier traffic; a rejection must
+be justified against the latest pass time seen so far).
 -/
 namespace Sentinel.Drv.C10
 open Sentinel.Throttle Sentinel.Drv
 
+/-- a throttling rule as loaded -/
+structure RP where
+  T : Float
+  tbits : Nat
+  statMs : Nat
+  mq : Nat
+
+def RP.statNs (r : RP) : Nat := (if r.statMs = 0 then 1000 else r.statMs) * 1000000
+def RP.maxQ (r : RP) : Int := ((r.mq * 1000000 : Nat) : Int)
+
+/-- `old.isEqualsTo(new)` restricted to the fields a Direct+Throttling rule of one resource can differ in:
+    `StatIntervalInMs`, `MaxQueueingTimeMs` and `util.Float64Equals(Threshold)` (`|x − y| < 1e-8`, in binary64) -/
+def ruleEq (old new : RP) : Bool :=
+  old.statMs == new.statMs && Float.abs (old.T - new.T) < 0.00000001 && old.mq == new.mq
+
+/-- the oracle's notion of "the same rule stays in force": all three fields identical.  (A `+Inf` threshold is never the
+    same for the code — `Inf − Inf` is NaN — so such a rule is rebuilt on every real reload; its interval is 0, nothing is
+    claimed across the reload for it.) -/
+def sameRule (a b : RP) : Bool := a.tbits == b.tbits && a.statMs == b.statMs && a.mq == b.mq && ruleEq a b
+
+/-- what the oracle remembers per rule in force: `prev` = latest pass time this rule assigned (spacing is claimed
+    against it), `prevHi` = an upper bound of what its checker may legitimately remember (a rejection is justified
+    against it; after a reload that changed the rule the checker may or may not have been rebuilt) -/
+structure ORec where
+  rp : RP
+  prev : Int
+  prevHi : Int
+
 structure St where
   loaded : Bool := false
-  T : Float := 0.0
-  tbits : Nat := 0
-  statNs : Nat := 0
-  maxQ : Int := 0
-  last : Int := 0                       -- model: lastPassedTime
+  ctls : List (Ctl RP) := []            -- model: controllers in check order (bound rule + lastPassedTime)
+  orc : List ORec := []                 -- oracle: the rule list in force
   now : Option Int := none
   decls : Array (Int × Nat) := #[]      -- declared workers: (clock, batch)
-  prev : Int := 0                       -- oracle: latest pass time seen in the trace (the checker starts at 0)
   taint : Option String := none         -- oracle: a known-finding region entered earlier and not yet left
 
 /-- the float part of `DoCheck` (same binary64 operations as the Go code) -/
@@ -92,35 +123,127 @@ def parseSched? (ts : List String) : Option (List Nat) :=
 def validTicks (ts : List String) : Bool :=
   ts.all fun t => if t.startsWith "tick:" then (t.drop 5).toString.toNat?.isSome else true
 
-def mkCfg (s : St) : Cfg :=
-  Cfg.start s.maxQ s.last (s.decls.toList.map fun d => (d.1, classify s.T s.statNs d.2))
+def mkCfg (s : St) (c : Ctl RP) : Cfg :=
+  Cfg.start c.rule.maxQ c.last (s.decls.toList.map fun d => (d.1, classify c.rule.T c.rule.statNs d.2))
 
 def knownOr (tainted : Option String) (why : String) : String :=
   match tainted with
   | some k => s!"known:{k}"
   | none => s!"bad {why}"
 
-/-- judge one admitted/blocked request against the trace so far.
-    `prevMax` = latest pass time admitted before (for a block inside a `sched`: incl. the other workers). -/
-def judgeBlock (s : St) (tainted : Option String) (prevMax now : Int) (b : Nat) : String :=
-  match classify s.T s.statNs b, exactIv s.tbits b s.statNs with
+/-- is a rejection by rule `r` justified?  `prevMax` = upper bound of the latest pass time the rule accounts for -/
+def judgeBlock (r : RP) (tainted : Option String) (prevMax now : Int) (b : Nat) : String :=
+  match classify r.T r.statNs b, exactIv r.tbits b r.statNs with
   | .zero, _ => "bad zero-batch-blocked"
   | .excess, _ => "ok"
   | .norm ivF, some ivX =>
-    if prevMax + ivX - now > s.maxQ then "ok"
-    else if prevMax + ivF - now > s.maxQ then "?"
+    if prevMax + ivX - now > r.maxQ then "ok"
+    else if prevMax + ivF - now > r.maxQ then "?"
     else knownOr tainted "unjustified-block"
   | .norm _, none => "?"
 
+/-- is an admission by rule `r` (arrival `now`, observed `obs` = pass / wait) within the property? -/
+def judgeAdmit (r : RP) (tainted : Option String) (prev now : Int) (b : Nat) (obs : Res) : String :=
+  let w : Int := match obs with | .wait w => w | _ => 0
+  match classify r.T r.statNs b, exactIv r.tbits b r.statNs with
+  | .zero, _ => if obs = .pass then "ok" else "bad zero-batch-waits"
+  | .excess, none => "bad admitted-with-threshold<=0"
+  | cls, some ivX =>
+    let ivF : Int := match cls with | .norm iv => iv | _ => ivX
+    if (match obs with | .wait w => decide (w ≤ 0) | _ => false) then "bad nonpositive-wait"
+    else if w > r.maxQ then "bad wait>max"
+    else if prev + ivX ≤ now + w then "ok"
+    else if prev + ivF ≤ now + w then "?"
+    else knownOr tainted "spacing"
+  | _, none => "?"
+
+/-! ### the event form of a sequential request
+
+`req` prints what can be observed of the walk over the rules: `L` for every `th.load` hook (a checker that got as far as
+its shared timestamp), `S<ns>` for every sleep the slot asked for, then the verdict `pass` / `block`. -/
+
+inductive Ev where
+  | L
+  | S (ns : Int)
+deriving DecidableEq
+
+def showEvents (classes : List Req) (visited : List Res) : String :=
+  let evs := (classes.zip visited).flatMap fun (c, r) =>
+    match c, r with
+    | .norm _, .wait w => ["L", s!"S{w}"]
+    | .norm _, _ => ["L"]
+    | _, _ => []
+  let verdict := if visited.getLast? = some .block then "block" else "pass"
+  " ".intercalate (evs ++ [verdict])
+
+def parseEvents? (s : String) : Option (List Ev × Bool) :=
+  let ts := toks s
+  match ts.getLast? with
+  | none => none
+  | some v =>
+    if v ≠ "pass" && v ≠ "block" then none else
+    (ts.dropLast.mapM fun t =>
+      if t = "L" then some Ev.L
+      else if t.startsWith "S" then (t.drop 1).toString.toInt?.map Ev.S
+      else none).map fun evs => (evs, v == "pass")
+
+/-- per visited rule: arrival time and what it answered (`none` = cannot be told from the outside: the rule either
+    rejected, or passed and the next — over-threshold — rule rejected).  `none` overall = the events do not have the
+    shape of a walk over these rules. -/
+def recon (pass : Bool) : Int → List Req → List Ev → Option (List (Int × Option Res))
+  | _, [], evs => if evs.isEmpty && pass then some [] else none
+  | cur, .zero :: cs, evs => (recon pass cur cs evs).map fun r => (cur, some .pass) :: r
+  | cur, .excess :: _, evs => if evs.isEmpty && !pass then some [(cur, some .block)] else none
+  | cur, .norm _ :: cs, .L :: .S w :: evs => (recon pass (cur + w) cs evs).map fun r => (cur, some (.wait w)) :: r
+  | cur, .norm _ :: cs, .L :: evs =>
+    if !evs.isEmpty || pass then (recon pass cur cs evs).map fun r => (cur, some .pass) :: r
+    else match cs with
+      | .excess :: _ => some [(cur, none)]
+      | _ => some [(cur, some .block)]
+  | _, .norm _ :: _, _ => none
+
+def parseRules? : List String → Option (List RP)
+  | [] => some []
+  | tb :: si :: mq :: rest =>
+    match parseFbits? tb, parseHex? (tb.drop 2).toString, si.toNat?, mq.toNat?, parseRules? rest with
+    | some T, some bits, some si, some mq, some rs =>
+      if T.isNaN || T < 0.0 || si ≥ 2 ^ 32 || mq ≥ 2 ^ 32 then none else some ({ T := T, tbits := bits, statMs := si, mq := mq } :: rs)
+    | _, _, _, _, _ => none
+  | _ => none
+
+/-- the oracle's records after a (re)load: a rule that stays identical keeps its record (first fit, in order); any other
+    rule starts with the spacing record of a fresh checker and, for rejections, the latest pass time seen so far -/
+def orcReload (old : List ORec) (hi : Int) : List RP → List ORec
+  | [] => []
+  | r :: rs =>
+    match old.findIdx? fun o => sameRule o.rp r with
+    | some i =>
+      match old[i]? with
+      | some o => { o with rp := r } :: orcReload (old.eraseIdx i) hi rs
+      | none => { rp := r, prev := 0, prevHi := hi } :: orcReload old hi rs
+    | none => { rp := r, prev := 0, prevHi := hi } :: orcReload old hi rs
+
+def worst (vs : List String) : String :=
+  match vs.find? fun v => v.startsWith "bad" with
+  | some v => v
+  | none =>
+    match vs.find? fun v => v.startsWith "known:" with
+    | some v => v
+    | none => if vs.contains "?" then "?" else "ok"
+
 def step (oracle : Bool) (s : St) (ts : List String) (line : String) : St × Option String :=
   match ts with
-  | ["load", tb, si, mq] =>
-    match parseFbits? tb, parseHex? (tb.drop 2).toString, si.toNat?, mq.toNat? with
-    | some T, some bits, some si, some mq =>
-      if s.loaded || T.isNaN || si ≥ 2 ^ 32 || mq ≥ 2 ^ 32 then (s, some "bad-op") else
-      ({ loaded := true, T := T, tbits := bits, statNs := (if si = 0 then 1000 else si) * 1000000,
-         maxQ := (mq * 1000000 : Nat) }, none)
-    | _, _, _, _ => (s, some "bad-op")
+  | "load" :: rest =>
+    -- an optional last token `other=<n>` (a rule for another resource: makes the reload a real one) is not our business
+    let rest := match rest.getLast? with
+      | some t => if t.startsWith "other=" then rest.dropLast else rest
+      | none => rest
+    match parseRules? rest with
+    | some rules =>
+      if rules.length > 4 || !s.decls.isEmpty then (s, some "bad-op") else
+      let hi := s.orc.foldl (fun a o => max a o.prevHi) 0
+      ({ s with loaded := true, ctls := reload ruleEq s.ctls rules, orc := orcReload s.orc hi rules }, none)
+    | none => (s, some "bad-op")
   | ["clock", t] =>
     match t.toNat? with
     | some t => if s.loaded then ({ s with now := some (t : Int) }, none) else (s, some "bad-op")
@@ -129,52 +252,51 @@ def step (oracle : Bool) (s : St) (ts : List String) (line : String) : St × Opt
     match b.toNat?, s.now with
     | some b, some now =>
       if !s.loaded || b ≥ 2 ^ 32 || !s.decls.isEmpty then (s, some "bad-op") else
-      let cls := classify s.T s.statNs b
-      let (l', r) := doCheck s.maxQ s.last now cls
+      let classes := s.ctls.map fun c => classify c.rule.T c.rule.statNs b
+      let (lasts, visited) := chain now ((s.ctls.zip classes).map fun (c, q) => (c.rule.maxQ, c.last, q))
+      let ctls' := (s.ctls.zip lasts).map fun (c, l) => { c with last := l }
+      let slept := visited.foldl (fun a r => match r with | .wait w => a + w | _ => a) 0
       if !oracle then
-        let now' := match r with | .wait w => now + w | _ => now
-        ({ s with last := l', now := some now' }, some (showRes r))
+        ({ s with ctls := ctls', now := some (now + slept) }, some (showEvents classes visited))
       else
-        match (resPart line).bind parseRes? with
+        match (resPart line).bind parseEvents? with
         | none => (s, some "bad unreadable-result")
-        | some obs =>
-          let tainted := if s.last ≠ s.prev then s.taint else none
-          let w : Int := match obs with | .wait w => w | _ => 0
-          let verdict : String :=
-            match obs with
-            | .block => judgeBlock s tainted s.prev now b
-            | _ =>
-              match cls, exactIv s.tbits b s.statNs with
-              | .zero, _ => if obs = .pass then "ok" else "bad zero-batch-waits"
-              | .excess, none => "bad admitted-with-threshold<=0"
-              | cls, some ivX =>
-                let ivF : Int := match cls with | .norm iv => iv | _ => ivX
-                if (match obs with | .wait w => decide (w ≤ 0) | _ => false) then "bad nonpositive-wait"
-                else if w > s.maxQ then "bad wait>max"
-                else if s.prev + ivX ≤ now + w then "ok"
-                else if s.prev + ivF ≤ now + w then "?"
-                else knownOr tainted "spacing"
-              | _, none => "?"
-          let prev' := match obs, cls with
-            | .block, _ => s.prev
-            | _, .zero => s.prev
-            | _, _ => max s.prev (now + w)
-          let taint' := if l' = prev' then none else s.taint
-          ({ s with last := l', prev := prev', taint := taint', now := some (now + w) }, some verdict)
+        | some (evs, pass) =>
+          let tainted := if s.ctls.map (·.last) ≠ s.orc.map (·.prev) then s.taint else none
+          let oclasses := s.orc.map fun o => classify o.rp.T o.rp.statNs b
+          let obsSlept := evs.foldl (fun a e => match e with | .S w => a + w | _ => a) 0
+          match recon pass now oclasses evs with
+          | none => ({ s with ctls := ctls', now := some (now + obsSlept) }, some "bad walk-shape")
+          | some per =>
+            -- judge the visited rules, update their records; the rules after a rejection were not asked
+            let judged := (s.orc.zip (per.map some ++ List.replicate (s.orc.length - per.length) none)).map fun (o, x) =>
+              match x with
+              | none => (o, "ok")
+              | some (a, none) => ({ o with prevHi := max o.prevHi a }, "ok")
+              | some (a, some .block) => (o, judgeBlock o.rp tainted o.prevHi a b)
+              | some (a, some r) =>
+                let v := judgeAdmit o.rp tainted o.prev a b r
+                match classify o.rp.T o.rp.statNs b with
+                | .zero => (o, v)
+                | _ =>
+                  let p := a + (match r with | .wait w => w | _ => 0)
+                  ({ o with prev := max o.prev p, prevHi := max o.prev p }, v)
+            let orc' := judged.map (·.1)
+            let taint' := if ctls'.map (·.last) = orc'.map (·.prev) then none else s.taint
+            ({ s with ctls := ctls', orc := orc', taint := taint', now := some (now + obsSlept) }, some (worst (judged.map (·.2))))
     | _, _ => (s, some "bad-op")
   | ["thread", tid, clk, "req", b] =>
     match tid.toNat?, clk.toNat?, b.toNat? with
     | some tid, some clk, some b =>
-      if !s.loaded || tid ≠ s.decls.size || b ≥ 2 ^ 32 || tid ≥ 8 then (s, some "bad-op")
+      if !s.loaded || s.ctls.length ≠ 1 || tid ≠ s.decls.size || b ≥ 2 ^ 32 || tid ≥ 8 then (s, some "bad-op")
       else ({ s with decls := s.decls.push ((clk : Int), b) }, none)
     | _, _, _ => (s, some "bad-op")
   | "sched" :: es =>
-    match parseSched? es with
-    | none => (s, some "bad-op")
-    | some sch =>
+    match parseSched? es, s.ctls, s.orc with
+    | some sch, [ctl], [o] =>
       if !s.loaded || s.decls.isEmpty || !validTicks es then (s, some "bad-op") else
-      let c := (mkCfg s).runSched sch
-      let s' := { s with last := c.last, now := none, decls := #[] }
+      let c := (mkCfg s ctl).runSched sch
+      let s' := { s with ctls := [{ ctl with last := c.last }], now := none, decls := #[] }
       if !oracle then
         (s', some (showList ((c.results.zipIdx).map fun (r, i) => s!"{i}:{showResT r}")))
       else
@@ -182,17 +304,18 @@ def step (oracle : Bool) (s : St) (ts : List String) (line : String) : St × Opt
         | none => (s', some "bad unreadable-result")
         | some obs =>
           if obs.length ≠ s.decls.size then (s', some "bad unreadable-result") else
+          let rp := o.rp
           let here : Option String :=
             if c.rb then some "throttle-rollback-collision"
             else if c.stale then some "throttle-stale-add"
             else none
-          let tainted := here.orElse fun _ => if s.last ≠ s.prev then s.taint else none
+          let tainted := here.orElse fun _ => if ctl.last ≠ o.prev then s.taint else none
           let rows := (s.decls.toList.zip obs).map fun ((now, b), r) =>
-            (now, b, r, classify s.T s.statNs b, exactIv s.tbits b s.statNs)
+            (now, b, r, classify rp.T rp.statNs b, exactIv rp.tbits b rp.statNs)
           -- per-thread checks that hold under every schedule
           let bad1 := rows.filterMap fun (_, _, r, cls, x) =>
             match r, cls, x with
-            | .wait w, _, _ => if w ≤ 0 then some "bad nonpositive-wait" else if w > s.maxQ then some "bad wait>max" else
+            | .wait w, _, _ => if w ≤ 0 then some "bad nonpositive-wait" else if w > rp.maxQ then some "bad wait>max" else
                 (match cls with | .zero => some "bad zero-batch-waits" | _ => none)
             | .block, .zero, _ => some "bad zero-batch-blocked"
             | .pass, .excess, none => some "bad admitted-with-threshold<=0"
@@ -205,10 +328,10 @@ def step (oracle : Bool) (s : St) (ts : List String) (line : String) : St × Opt
             | _, _, _ => none
           let adm := adm.mergeSort fun a b => a.1 ≤ b.1
           let (_, spX, spF) := adm.foldl (fun (acc : Int × Bool × Bool) e =>
-            (e.1, acc.2.1 && decide (acc.1 + e.2.1 ≤ e.1), acc.2.2 && decide (acc.1 + e.2.2 ≤ e.1))) (s.prev, true, true)
-          let top := adm.foldl (fun a e => max a e.1) s.prev
+            (e.1, acc.2.1 && decide (acc.1 + e.2.1 ≤ e.1), acc.2.2 && decide (acc.1 + e.2.2 ≤ e.1))) (o.prev, true, true)
+          let top := adm.foldl (fun a e => max a e.1) o.prev
           let blocks := rows.filterMap fun (now, b, r, _, _) =>
-            match r with | .block => some (judgeBlock s tainted top now b) | _ => none
+            match r with | .block => some (judgeBlock rp tainted (max top o.prevHi) now b) | _ => none
           let verdict :=
             match bad1 with
             | w :: _ => w
@@ -218,7 +341,8 @@ def step (oracle : Bool) (s : St) (ts : List String) (line : String) : St × Opt
                 | some v => v
                 | none => if !spX || blocks.contains "?" then "?" else "ok"
           let taint' := if c.last = top then none else tainted
-          ({ s' with prev := top, taint := taint' }, some verdict)
+          ({ s' with orc := [{ o with prev := top, prevHi := max top (if adm.isEmpty then o.prevHi else top) }], taint := taint' }, some verdict)
+    | _, _, _ => (s, some "bad-op")
   | _ => (s, some "bad-op")
 
 def run (mode : String) : IO Unit :=
